@@ -23,9 +23,8 @@ func Run(c *core.Ctx, pool *gjs.Pool) {
 		return
 	}
 	if os.Getenv("VERIF_C16_DIRECT_ONLY") == "" { // development aid: skip the end-to-end half
-		minigo.Check(c, pool, minigo.Config{Prop: "C16", Families: true, Random: c.Pick(250, 5000), NodeCheck: true,
+		minigo.Check(c, pool, minigo.Config{Prop: "C16", Families: true, Random: c.Pick(250, 5000), Random2: c.Pick(120, 3000), NodeCheck: true,
 			Modes: []minigo.Mode{{Name: "minified-plain", Minify: true}, {Name: "minified-resumable", Flat: true, Minify: true, Masks: c.Pick(2, 8)}}})
 	}
 	runDirect(c)
-	runWitnesses(c, pool)
 }
